@@ -21,7 +21,7 @@ ARITH_RULE = ("programs generated from one PRNG (seed*1000+shard); an evaluation
 
 PROPS = {
     "C01": {
-        "extra_modules": ["C01W", "CGen"],
+        "extra_modules": ["C01W", "CGen", "CGenK"],
         "gens": [{"name": "mix", "quick": 900, "thorough": 4000}, {"name": "C01", "quick": 3000, "thorough": 12000}, {"name": "muldiv", "harness": "kernharness", "quick": 1500, "thorough": 6000}],
         "needs": ["apiharness"],
         "nontrivial": {"inexact", "range"},
@@ -30,7 +30,7 @@ PROPS = {
         "lean_targets": ["Proofs.GenWordOps", "Proofs.GenTables"],
     },
     "C02": {
-        "extra_modules": ["CGen"],
+        "extra_modules": ["CGen", "CGenK"],
         "gens": [{"name": "mix", "quick": 900, "thorough": 4000}, {"name": "C02", "quick": 2500, "thorough": 12000}, {"name": "setters", "quick": 800, "thorough": 5000},
                  {"name": "C08", "quick": 150, "thorough": 1000}, {"name": "C03", "quick": 500, "thorough": 3000}],
         "nontrivial": {"inexact", "range"},
@@ -39,7 +39,7 @@ PROPS = {
         "lean_targets": ["Proofs.GenWordOps", "Proofs.GenTables"],
     },
     "C03": {
-        "extra_modules": ["C03b"],
+        "extra_modules": ["C03b", "CGenK"],
         "gens": [{"name": "mix", "quick": 900, "thorough": 4000}, {"name": "C03", "quick": 2500, "thorough": 10000}],
         "nontrivial": {"inexact", "range", "fused-differs", "alias"},
         "rule": ARITH_RULE + "non-trivial = inexact, out of range, differs from Mul-then-Add, or aliased arguments",
@@ -57,6 +57,7 @@ PROPS = {
         "lean_targets": ["Proofs.GenWordOps", "Proofs.GenTables"],
     },
     "C06": {
+        "extra_modules": ["CGenK"],
         "gens": [{"name": "mix", "quick": 900, "thorough": 4000}, {"name": "muldiv", "harness": "kernharness", "quick": 2500, "thorough": 9000},
                  {"name": "dec", "harness": "kernharness", "quick": 1500, "thorough": 6000},
                  {"name": "divrec", "harness": "kernharness", "quick": 400, "thorough": 3000},
@@ -117,6 +118,7 @@ PROPS = {
         "lean_targets": ["Proofs.GenWordOps", "Proofs.GenTables"],
     },
     "C10": {
+        "extra_modules": ["CGenK"],
         "gens": [{"name": "mix", "quick": 900, "thorough": 4000}, {"name": "C10", "quick": 250, "thorough": 1500}, {"name": "decpoison", "harness": "kernharness", "quick": 1200, "thorough": 5000},
                  {"name": "C03", "quick": 600, "thorough": 3000}, {"name": "setters", "quick": 600, "thorough": 3000}],
         "needs": ["apiharness", "kernharness"],
